@@ -82,8 +82,27 @@ def stepD (s : State) (op : Op) : State :=
 
 def run (ops : List Op) : State := ops.foldl stepD {}
 
+/-- The BM25 free parameters of an `OkapiIndex`.  `K1` and `B` are class attributes ("BM25 free
+parameters") that a subclass or an instance may override.  `k1`, `b` are what the *scoring loop* uses:
+`self.K1` / `self.B` in the pure-Python `_search_wids`, the `#define`s `K1 1.2` / `B 0.75` of
+`okascore.c` in the compiled one ("okascore hardcodes the values of K, B1": the compiled loop does not
+see an override).  `kq` is what `query_weight` reads: `self.K1`, with either loop. -/
+class Bm25 (α : Type) where
+  k1 : α
+  b : α
+  kq : α
+
 variable {α : Type} [Scalar α]
 open Scalar
+
+/-- `K1 = 1.2`, `B = 0.75`: the class attributes of `OkapiIndex` and the constants of `okascore.c` -/
+@[reducible] def Bm25.default : Bm25 α := { k1 := nat 12 / nat 10, b := nat 75 / nat 100, kq := nat 12 / nat 10 }
+
+theorem Bm25.default_k1 : (@Bm25.k1 α Bm25.default) = nat 12 / nat 10 := rfl
+theorem Bm25.default_b : (@Bm25.b α Bm25.default) = nat 75 / nat 100 := rfl
+theorem Bm25.default_kq : (@Bm25.kq α Bm25.default) = nat 12 / nat 10 := rfl
+
+variable [Bm25 α]
 
 /-- `indexed_count()` = `len(_docweight)` -/
 def numDocs (T : Table) : Nat := T.length
@@ -101,9 +120,10 @@ def removeOov (T : Table) (wids : List Nat) : List Nat := wids.filter (inVocab T
 /-- `inverse_doc_frequency(term_count, num_items)` = log(1 + N/n) -/
 def idf (n N : Nat) : α := log (nat 1 + nat N / nat n)
 
-/-- `K1 = 1.2`, `B = 0.75` (okapiindex.py and okascore.c) -/
-def k1 : α := nat 12 / nat 10
-def b : α := nat 75 / nat 100
+/-- `K1`, `B` as the scoring loop reads them, `K1` as `query_weight` reads it (see `Bm25`) -/
+def k1 : α := Bm25.k1
+def b : α := Bm25.b
+def kq : α := Bm25.kq
 
 /-- the body of the scoring loop, Python and C:
 `lenweight = B_from1 + B * len / meandoclen; tf = f * K1_plus1 / (f + K1 * lenweight)` -/
@@ -181,7 +201,7 @@ def queryWeight (k : Kind) (s : State) (wids : List Nat) : α :=
   let N := numDocs s.T
   let ws := removeOov s.T wids
   match k with
-  | .okapi => sumFrom (nat 0) (ws.map (fun t => idf (docsWith s.T t).length N * (nat 1 + k1)))
+  | .okapi => sumFrom (nat 0) (ws.map (fun t => idf (docsWith s.T t).length N * (nat 1 + kq)))
   | .cosine => sqrt (sumFrom (nat 0) (ws.map (fun t =>
       let wt : α := idf (docsWith s.T t).length N
       wt * wt)))
